@@ -34,8 +34,11 @@ SAFETY = (
 UNDECIDED_HINTS = ("rlimit", "Resource limit", "timed out", "solver", "z3")
 
 def verus_cmd(path, extra=()):
-    return ["verus", path, "--output-json", "--time", "--multiple-errors", "8",
-            "--error-format=json", "--rlimit", "40", "--num-threads", "4"] + list(extra)
+    extra = list(extra)
+    base = ["verus", path, "--output-json", "--time", "--multiple-errors", "8", "--error-format=json", "--num-threads", "4"]
+    if "--rlimit" not in extra:       # an option may be given only once
+        base += ["--rlimit", "40"]
+    return base + extra
 
 class UnitResult:
     def __init__(self, unit):
